@@ -36,7 +36,9 @@ impl Packetizer {
                     (len - self.buf.len()).clamp(MIN_RESERVE_CAPACITY, MAX_RESERVE_CAPACITY);
                 self.buf.reserve(reserve);
             }
-        } else if self.buf.capacity() == self.buf.len() {
+        }
+
+        if self.buf.capacity() == self.buf.len() {
             self.buf.reserve(MIN_RESERVE_CAPACITY);
         }
 
